@@ -600,6 +600,13 @@ def r9(ctx):
     ctx.floor("C01.R9", 5)
 
 
+def r10(ctx):
+    """what is fingerprinted and sent is everything that is held: the plain scan behind get_range / the range fingerprint yields
+    every row of the range, deletion markers included (= C08.R5)"""
+    from . import C08
+    ctx.share("C01.R10", C08.r5, "C08.R5", floor=4)
+
+
 def run(ctx):
     ctx.run_rule("C01.R1", r1)
     ctx.run_rule("C01.R2", r2)
@@ -610,3 +617,4 @@ def run(ctx):
     ctx.run_rule("C01.R7", r7)
     ctx.run_rule("C01.R8", r8)
     ctx.run_rule("C01.R9", r9)
+    ctx.run_rule("C01.R10", r10)
